@@ -107,11 +107,20 @@ def run_case(ctx, rng, graph, gkind, i):
         X = X * unit
     elif variant == "far_offset":
         X = X + rng.choice([-1.0, 1.0], X.shape[1]) * 10.0 ** rng.uniform(3, 6)     # map coordinates, time stamps
+    idt = None
+    if variant == "plain" and dtype == np.float64 and rng.random() < 0.15:
+        # pixel intensities / integer pixel positions handed over in the compact integer type they are stored in (the data are
+        # whole numbers: the model is the one of those numbers)
+        X = np.round((X - X.min()) / max(1e-300, float(np.ptp(X))) * 240.0 + 5.0)
+        idt = [np.uint8, np.int16, np.uint16, np.int64][rng.integers(0, 4)]
+        ctx.bump("integer_typed_data_matrices")
     gmrfmon.clear()
     gmrfmon.UNIT[0] = unit
     models = {}
     for sparse in (True, False):
         Xin = X.copy() if rng.random() < 0.5 else [row.copy() for row in X]
+        if idt is not None:
+            Xin = X.astype(idt) if rng.random() < 0.5 else [row.astype(idt) for row in X]
         nkw = {}
         if isinstance(Xin, list) and rng.random() < 0.4:
             # the documented n_samples argument: "this many of the samples of this sequence" (which holds a few more)
